@@ -55,6 +55,7 @@ type node struct {
 	idx     *index.Manager
 	logs    *observer.ObservedLogs
 	dir     string
+	spy     *spyChain
 	closed  bool
 }
 
@@ -85,7 +86,8 @@ func newNode(t testing.TB, dir string, pk types.PrivateKey, network *consensus.N
 	if err != nil {
 		t.Fatal("volumes:", err)
 	}
-	con, err := contracts.NewManager(db, vm, cm, nopSyncer{}, wm, contracts.WithRejectAfter(10), contracts.WithRevisionSubmissionBuffer(5), contracts.WithLog(log.Named("contracts")))
+	spy := &spyChain{Manager: cm, dbstore: dbstore}
+	con, err := contracts.NewManager(db, vm, spy, nopSyncer{}, wm, contracts.WithRejectAfter(10), contracts.WithRevisionSubmissionBuffer(5), contracts.WithLog(log.Named("contracts")))
 	if err != nil {
 		t.Fatal("contracts:", err)
 	}
@@ -101,7 +103,7 @@ func newNode(t testing.TB, dir string, pk types.PrivateKey, network *consensus.N
 	if err != nil {
 		t.Fatal("index:", err)
 	}
-	return &node{store: db, dbstore: dbstore, cm: cm, w: wm, vm: vm, con: con, set: sm, idx: idx, logs: logs, dir: dir}
+	return &node{store: db, dbstore: dbstore, cm: cm, w: wm, vm: vm, con: con, set: sm, idx: idx, logs: logs, dir: dir, spy: spy}
 }
 
 func (n *node) close() {
@@ -117,24 +119,155 @@ func (n *node) close() {
 	vhlib.Try(func() { n.store.Close() })
 }
 
+// spyChain is the chain manager as contracts.Manager sees it. Every v2 set the pool refuses is examined on the spot,
+// at the very tip and with the very transactions of the refusal:
+//
+//	fresh   the same set submitted to a FRESH chain.Manager over the same chain store (empty pool, no remembered sets)
+//	direct  the set validated with consensus.ValidateV2Transaction on a MidState of the tip (proofs moved from the
+//	        basis to the tip by the fresh manager when the basis is not the tip)
+//	bad     which Merkle proofs of the (updated) set do not verify against the tip accumulator
+type spyChain struct {
+	*chain.Manager
+	dbstore  *chain.DBStore
+	refusals []string
+}
+
+func (sc *spyChain) AddV2PoolTransactions(basis types.ChainIndex, txns []types.V2Transaction) (bool, error) {
+	cp := func() []types.V2Transaction {
+		out := make([]types.V2Transaction, len(txns))
+		for i := range txns {
+			out[i] = txns[i].DeepCopy()
+		}
+		return out
+	}
+	orig := cp()
+	known, err := sc.Manager.AddV2PoolTransactions(basis, txns)
+	if err == nil {
+		return known, err
+	}
+	cs := sc.Manager.TipState()
+	fresh := chain.NewManager(sc.dbstore, cs)
+	freshRes := "ok"
+	var ferr error
+	if p, msg := vhlib.Try(func() { _, ferr = fresh.AddV2PoolTransactions(basis, cp()) }); p {
+		freshRes = "panic_" + clip(msg)
+	} else if ferr != nil {
+		freshRes = "rej_" + clip(ferr.Error())
+	}
+	// direct validation at the tip
+	upd := orig
+	direct := "ok"
+	if basis != cs.Index {
+		var uerr error
+		if p, msg := vhlib.Try(func() { upd, uerr = chain.NewManager(sc.dbstore, cs).UpdateV2TransactionSet(cp(), basis, cs.Index) }); p {
+			direct = "updpanic_" + clip(msg)
+		} else if uerr != nil {
+			direct = "upderr_" + clip(uerr.Error())
+		}
+	}
+	var bad []string
+	if direct == "ok" {
+		ms := consensus.NewMidState(cs)
+		for i, txn := range upd {
+			if verr := consensus.ValidateV2Transaction(ms, txn); verr != nil {
+				direct = fmt.Sprintf("txn%d_%s", i, clip(verr.Error()))
+				break
+			}
+			ms.ApplyV2Transaction(txn)
+		}
+		for i, txn := range upd {
+			for j, in := range txn.SiacoinInputs {
+				if in.Parent.StateElement.LeafIndex == types.UnassignedLeafIndex {
+					continue
+				}
+				h := types.NewHasher()
+				h.WriteDistinguisher("leaf/siacoin")
+				in.Parent.ID.EncodeTo(h.E)
+				types.V2SiacoinOutput(in.Parent.SiacoinOutput).EncodeTo(h.E)
+				h.E.WriteUint64(in.Parent.MaturityHeight)
+				if !accContains(cs.Elements, h.Sum(), in.Parent.StateElement, false) {
+					bad = append(bad, fmt.Sprintf("txn%d.input%d", i, j))
+				}
+			}
+			for j, r := range txn.FileContractResolutions {
+				h := types.NewHasher()
+				h.WriteDistinguisher("leaf/v2filecontract")
+				r.Parent.ID.EncodeTo(h.E)
+				r.Parent.V2FileContract.EncodeTo(h.E)
+				if !accContains(cs.Elements, h.Sum(), r.Parent.StateElement, false) {
+					bad = append(bad, fmt.Sprintf("txn%d.res%d.parent", i, j))
+				}
+				if sp, ok := r.Resolution.(*types.V2StorageProof); ok {
+					h := types.NewHasher()
+					h.WriteDistinguisher("leaf/chainindex")
+					sp.ProofIndex.ID.EncodeTo(h.E)
+					sp.ProofIndex.ChainIndex.EncodeTo(h.E)
+					if !accContains(cs.Elements, h.Sum(), sp.ProofIndex.StateElement, false) {
+						bad = append(bad, fmt.Sprintf("txn%d.res%d.proofindex", i, j))
+					}
+				}
+			}
+			for j, r := range txn.FileContractRevisions {
+				h := types.NewHasher()
+				h.WriteDistinguisher("leaf/v2filecontract")
+				r.Parent.ID.EncodeTo(h.E)
+				r.Parent.V2FileContract.EncodeTo(h.E)
+				if !accContains(cs.Elements, h.Sum(), r.Parent.StateElement, false) {
+					bad = append(bad, fmt.Sprintf("txn%d.rev%d.parent", i, j))
+				}
+			}
+		}
+	}
+	// was the set valid for the chain state it was built for (the host's processed index)?
+	atBasis := "ok"
+	if bs, ok := sc.Manager.State(basis.ID); !ok {
+		atBasis = "nostate"
+	} else {
+		ms := consensus.NewMidState(bs)
+		for i, txn := range orig {
+			if verr := consensus.ValidateV2Transaction(ms, txn); verr != nil {
+				atBasis = fmt.Sprintf("txn%d_%s", i, clip(verr.Error()))
+				break
+			}
+			ms.ApplyV2Transaction(txn)
+		}
+	}
+	ids := make([]string, len(orig))
+	cid := ""
+	for i := range orig {
+		ids[i] = orig[i].ID().String()[:8]
+		for _, r := range orig[i].FileContractResolutions {
+			cid = types.FileContractID(r.Parent.ID).String()
+		}
+		for _, r := range orig[i].FileContractRevisions {
+			cid = types.FileContractID(r.Parent.ID).String()
+		}
+	}
+	sc.refusals = append(sc.refusals, fmt.Sprintf("%s|%d:basis%d:atbasis=%s:fresh=%s:direct=%s:bad=%s:ids=%s:err=%s", cid, cs.Index.Height, basis.Height, atBasis, freshRes, direct,
+		joinOr(bad, "+"), strings.Join(ids, "+"), clip(err.Error())))
+	return known, err
+}
+
 // sync lets the index manager catch up with the chain manager. Synchronous: the harness
 // calls the real syncDB; an error or panic is an observation, never a timeout.
 func (n *node) sync() string {
 	var err error
+	var stack string
 	panicked, msg := vhlib.Try(func() {
-		if os.Getenv("VH_DEBUG") != "" {
-			defer func() {
-				if r := recover(); r != nil {
-					fmt.Fprintf(os.Stderr, "PANIC in syncDB: %v\n%s\n", r, debug.Stack())
-					panic(r)
+		defer func() {
+			if r := recover(); r != nil {
+				stack = string(debug.Stack())
+				if os.Getenv("VH_DEBUG") != "" {
+					fmt.Fprintf(os.Stderr, "PANIC in syncDB: %v\n%s\n", r, stack)
 				}
-			}()
-		}
+				panic(r)
+			}
+		}()
 		err = n.idx.VerifSync(context.Background())
 	})
 	switch {
 	case panicked:
-		return "panic:" + clip(msg) + " comp=" + component(msg)
+		return "panic:" + clip(msg) + " comp=" + component(stack)
 	case err != nil:
 		return "syncerr:" + errClass(err) + " comp=" + component(err.Error())
 	case n.idx.Tip() != n.cm.Tip():
@@ -145,7 +278,7 @@ func (n *node) sync() string {
 
 func clip(s string) string {
 	s = strings.Map(func(r rune) rune {
-		if r == ' ' || r == '\n' || r == '\t' || r == '=' {
+		if r == ' ' || r == '\n' || r == '\t' || r == '=' || r == ',' || r == '[' || r == ']' {
 			return '_'
 		}
 		return r
@@ -156,15 +289,21 @@ func clip(s string) string {
 	return s
 }
 
-// component names the part of the chain update that failed (wallet, contracts, settings).
-func component(msg string) string {
+// component names the part of index.Manager.syncDB that failed, from the error chain or the panic's stack:
+// the chain update of the wallet / contracts / settings, or the ProcessActions calls after the commit.
+func component(s string) string {
 	switch {
-	case strings.Contains(msg, "wallet state") || strings.Contains(msg, "wallet") || strings.Contains(msg, "siacoin element"):
-		return "wallet"
-	case strings.Contains(msg, "contract state") || strings.Contains(msg, "contract") || strings.Contains(msg, "Contract") ||
-		strings.Contains(msg, "Collateral") || strings.Contains(msg, "Revenue") || strings.Contains(msg, "accumulator") || strings.Contains(msg, "expected 2 arguments"):
+	case strings.Contains(s, "contracts.(*Manager).ProcessActions") || strings.Contains(s, "process contract actions"):
+		return "actions_contracts"
+	case strings.Contains(s, "settings.(*ConfigManager).ProcessActions") || strings.Contains(s, "process settings actions"):
+		return "actions_settings"
+	case strings.Contains(s, "storage.(*VolumeManager).ProcessActions") || strings.Contains(s, "process storage actions"):
+		return "actions_volumes"
+	case strings.Contains(s, "contracts.(*Manager).UpdateChainState") || strings.Contains(s, "update contract state"):
 		return "contracts"
-	case strings.Contains(msg, "settings state") || strings.Contains(msg, "announcement"):
+	case strings.Contains(s, "wallet.(*SingleAddressWallet).UpdateChainState") || strings.Contains(s, "update wallet state"):
+		return "wallet"
+	case strings.Contains(s, "settings.(*ConfigManager).UpdateChainState") || strings.Contains(s, "update settings state"):
 		return "settings"
 	}
 	return "other"
@@ -188,18 +327,19 @@ type contractInfo struct {
 	formed   bool                 // formation currently confirmed on the host's best chain (from the update stream)
 	resolved bool
 	// what the twin store needs to hold the same contract
-	v1       bool
-	set      rhp4.TransactionSet      // v2 formation set
-	set1     []types.Transaction      // v1 formation set
-	rev1     contracts.SignedRevision // v1 initial revision
-	locked1  types.Currency
-	usage1   contracts.Usage
-	revs     []v2rev // ReviseV2Contract calls, in order
-	roots    []types.Hash256
-	seeds    []uint64 // sector seeds (data the host holds for the contract)
-	unstable bool     // the formation was disconnected at some point
-	exp      uint64   // v2 expiration height / v1 window end
-	formH    uint64   // height of the (last) confirmation, v1
+	v1           bool
+	set          rhp4.TransactionSet      // v2 formation set
+	set1         []types.Transaction      // v1 formation set
+	rev1         contracts.SignedRevision // v1 initial revision
+	locked1      types.Currency
+	usage1       contracts.Usage
+	revs         []v2rev // ReviseV2Contract calls, in order
+	roots        []types.Hash256
+	seeds        []uint64 // sector seeds (data the host holds for the contract)
+	unstable     bool     // the formation was disconnected at some point
+	exp          uint64   // v2 expiration height / v1 window end
+	formH        uint64   // height of the (last) confirmation, v1
+	windowReorgs int      // reorgs that hit the open proof window
 }
 
 type v2rev struct {
@@ -238,6 +378,9 @@ type world struct {
 	t0          time.Time
 	midBatchRej int
 	refused     map[int]int    // contract -> lifecycle sets the pool refused
+	freshOK     map[int]int    // contract -> refused sets that a fresh pool over the same chain store accepted
+	freshRej    map[int]int    // contract -> refused sets that a fresh pool refused as well
+	midRef      map[int]int    // contract -> sets refused while the processed index was behind the chain tip
 	fundFail    map[int]int    // contract -> lifecycle transactions the wallet could not fund
 	lastRej     map[int]string // contract -> why its latest lifecycle transaction could not be broadcast (cleared by a broadcast)
 	vol         int
@@ -290,7 +433,7 @@ func newWorld(t testing.TB, net string, batch int, spaced bool) *world {
 	w := &world{t: t, net: net, batch: batch, spaced: spaced, network: network, genesis: genesis,
 		hostKey: seedKey(7001), renterKey: seedKey(7002),
 		oids: map[types.Hash256]int{}, bids: map[types.BlockID]int{}, addrs: map[string]int{},
-		t0: time.Now().Truncate(5 * time.Minute).Add(30 * time.Second), refused: map[int]int{}, lastRej: map[int]string{}, fundFail: map[int]int{}}
+		t0: time.Now().Truncate(5 * time.Minute).Add(30 * time.Second), refused: map[int]int{}, lastRej: map[int]string{}, fundFail: map[int]int{}, freshOK: map[int]int{}, freshRej: map[int]int{}, midRef: map[int]int{}}
 	w.host = newNode(t, t.TempDir(), w.hostKey, network, genesis, batch)
 	return w
 }
@@ -892,7 +1035,37 @@ func (w *world) finish(tr *vhlib.Trace, op string, pre string) {
 	tr.Dist["c17:merkle_checked_index_elements"] += ni
 	tr.Dist["c17:merkle_checked_contract_elements"] += nc
 	rej, acts, prej := w.scanLogs(len(toks) <= w.batch)
-	tr.Line(op, strings.TrimSpace(fmt.Sprintf("res=ok %s %s %s acc=%s mkidx=%d mkcel=%d hostrej=%d acts=[%s] prej=[%s]", pre, strings.Join(toks, " "), obs, acc, bi, bc, rej, strings.Join(acts, ","), strings.Join(prej, ","))))
+	var pref []string
+	for _, r := range w.host.spy.refusals {
+		p := strings.SplitN(r, "|", 2)
+		ci := -1
+		for i, c := range w.cons {
+			if c.id.String() == p[0] {
+				ci = i
+			}
+		}
+		pref = append(pref, fmt.Sprintf("c%d:%s", ci, p[1]))
+		if ci >= 0 {
+			// refusals at the tip decide: a fresh pool over the same chain store accepts the very same set (the refusal
+			// is the pool's own state) or refuses it as well; sets built for an intermediate index of a catch-up are
+			// counted apart (C06/C17 speak about the processed tip being the chain tip)
+			f := strings.Split(p[1], ":")
+			atTip := len(f) > 1 && f[1] == "basis"+f[0]
+			switch {
+			case !atTip:
+				w.midRef[ci]++
+			case strings.Contains(p[1], ":fresh=ok:"):
+				w.freshOK[ci]++
+			default:
+				w.freshRej[ci]++
+			}
+		}
+	}
+	w.host.spy.refusals = nil
+	if len(pref) > 8 {
+		pref = append(pref[:4], pref[len(pref)-4:]...)
+	}
+	tr.Line(op, strings.TrimSpace(fmt.Sprintf("res=ok %s %s %s acc=%s mkidx=%d mkcel=%d hostrej=%d acts=[%s] prej=[%s] pref=[%s]", pre, strings.Join(toks, " "), obs, acc, bi, bc, rej, strings.Join(acts, ","), strings.Join(prej, ","), strings.Join(pref, ","))))
 }
 
 func (w *world) doMine(tr *vhlib.Trace, n int, to string, pool bool) {
